@@ -38,7 +38,9 @@ Step(obs) ==
   /\ nf' = nf + (IF fl' = <<>> THEN 0 ELSE 1)
   /\ (fl' # <<>>) => PrintT(<<"OBL_FAIL", l, fl'>>)
 
-Prop == IF kind = "tdd" THEN "C11" ELSE "C10"
+(* owner of the semantic obligations: the kind's own property, or C20 when the
+   history was executed under another build configuration for C20 *)
+Prop == IF Act("C20") THEN "C20" ELSE IF kind = "tdd" THEN "C11" ELSE "C10"
 Base == IF kind = "tdd" THEN 3 ELSE 2
 NAsg == Base ^ n
 Digit(a, v) == (a \div (Base ^ v)) % Base
